@@ -307,9 +307,22 @@ func runC04(r *mon.Run) {
 				continue
 			}
 			lp := pointRep(P.P, z)
+			switch rng.Intn(4) {
+			case 0:
+				// an operand OBJECT with a past (held another affine point, then overwritten)
+				lp, _ = pointWithHistory(rng, P.P)
+				w.Class("c04:mult:operand-with-history")
+			case 1:
+				// built through a public constructor / decoder
+				lp, _ = freshPointVia(rng, P.P, nil)
+				w.Class("c04:mult:operand-from-public-constructor")
+			}
 			v := new(Point)
 			if rng.Bool() {
 				v = pointRep(pool[rng.Intn(np)].P, big.NewInt(3)) // dirty receiver
+				if rng.Bool() {
+					v, _ = freshPointVia(rng, pool[rng.Intn(np)].P, nil) // dirty receiver holding an affine point
+				}
 			}
 			aliased := (i+ei)%3 == 0
 			if aliased {
